@@ -560,6 +560,7 @@ type c13Scenario struct {
 	scripts map[string][]c13Resp
 	retry   bool
 	expect  bool     // Expect: 100-continue exchange (short ExpectContinueTimeout)
+	partial bool     // the final response is cut short: the expected body dump is the script's prefix, not the caller's (failed) result
 	class   string   // known-finding class this input belongs to ("" = none)
 	order   []string // paths hit, in order, for the expected response side
 }
@@ -814,6 +815,32 @@ func c13GenScenario(s *verifh.Session, flow, feature string) *c13Scenario {
 			sc.scripts[sc.path] = []c13Resp{{raw: head + "no", head: head, body: "no", early: true, pieces: 1}}
 		}
 		sc.order = []string{sc.path}
+	case "truncated":
+		// Content-Length promises more than the peer sends before it hangs up: the call fails
+		// the same way with and without dump; what was received is dumped
+		full := verifh.RandBytes(r, 200+r.Intn(9000), "abcdefghij0123456789\n")
+		sent := full[:len(full)/2]
+		head := fmt.Sprintf("HTTP/1.1 200 OK\r\nX-Verif: c13\r\nContent-Length: %d\r\n\r\n", len(full))
+		sc.scripts[sc.path] = []c13Resp{{raw: head + sent, head: head, body: sent, close: true, pieces: 1 + r.Intn(3)}}
+		sc.order = []string{sc.path}
+		sc.partial = true
+		sc.class = ""
+	case "retry-after-reset":
+		// the first connection is closed without an answer: transport error, retried
+		sc.retry = true
+		sc.scripts[sc.path] = []c13Resp{{raw: "", close: true}, c13GenResp(s, final, feature, bodyKind)}
+		sc.order = []string{sc.path, sc.path}
+	case "garbage":
+		// not an HTTP response at all
+		// {what the peer sends, the whole lines the head reader consumes before it gives up}
+		g := verifh.Pick(r, [][2]string{
+			{"SSH-2.0-OpenSSH_9.6\r\n", "SSH-2.0-OpenSSH_9.6\r\n"},
+			{"HTTP/1.1 2x0 OK\r\nX-A: 1\r\n\r\n", "HTTP/1.1 2x0 OK\r\n"},
+			{"HTTP/1.1 200 OK\r\nNo colon here\r\nX-A: 1\r\n\r\n", "HTTP/1.1 200 OK\r\nNo colon here\r\n"},
+		})
+		sc.scripts[sc.path] = []c13Resp{{raw: g[0], head: g[1], body: "", close: true, pieces: 1}}
+		sc.order = []string{sc.path}
+		sc.class = ""
 	case "redirect":
 		target := sc.path + "/target"
 		code := verifh.Pick(r, []int{301, 302, 307, 308})
@@ -991,7 +1018,7 @@ func TestVerif_C13_e2eh1(t *testing.T) {
 	cnt := c13Counter{}
 	peer := c13NewPeer(t)
 	defer peer.close()
-	flows := []string{"single", "single", "single", "retry", "redirect"}
+	flows := []string{"single", "single", "single", "retry", "redirect", "single", "truncated", "single", "retry-after-reset", "redirect", "retry", "garbage"}
 	expectBudget := verifh.N(4, 80)
 	features := []string{"", "", "", "", "1xx", "long", "long-status", "many", "fold", "barelf", "nearly-long"}
 	n := verifh.N(240, 6000)
@@ -1119,10 +1146,11 @@ func TestVerif_C13_e2eh1(t *testing.T) {
 				resp = l[k]
 			}
 			body := resp.body
-			if i == len(on.attempts)-1 {
+			if i == len(on.attempts)-1 && !sc.partial {
 				body = off.res.body // what the caller read without dump
 			}
-			for j, content := range []string{at.head, at.payload, resp.head, body} {
+			rhead := resp.head
+			for j, content := range []string{at.head, at.payload, rhead, body} {
 				tk := ""
 				if content != "" {
 					tk = fmt.Sprintf("%c%c%c", 'A'+i, "hbHB"[j], '.')
@@ -1143,7 +1171,7 @@ func TestVerif_C13_e2eh1(t *testing.T) {
 		}
 	}
 	c13Finish(t, s, pend)
-	for _, must := range []string{"flow=retry", "flow=redirect", "flow=expect-reject", "flow=expect-continue", "via-clone", "via-each-request", "feature=long", "feature=fold", "feature=many", "level=both", "client-async", "req-body-via-reader", "req-body-via-chunked", "baseline-ok"} {
+	for _, must := range []string{"flow=retry", "flow=redirect", "flow=expect-reject", "flow=expect-continue", "flow=truncated", "flow=retry-after-reset", "flow=garbage", "baseline-error", "via-clone", "via-each-request", "feature=long", "feature=fold", "feature=many", "level=both", "client-async", "req-body-via-reader", "req-body-via-chunked", "baseline-ok"} {
 		if cnt[must] == 0 {
 			t.Errorf("generator never reached bucket %q", must)
 		}
